@@ -76,7 +76,10 @@ def constructed_pair(rng):
     if base["t"] == "poly":
         verts = [(G.exact(x), G.exact(y)) for x, y in base["v"]]
         center = (sum(v[0] for v in verts) / len(verts), sum(v[1] for v in verts) / len(verts))
-        if not O.region_contains(("simple", G.poly_curve(verts)), center, 0) if True else False:
+        try:
+            if not O.region_contains(("simple", G.poly_curve(verts)), center, 0):
+                center = None
+        except O.TooClose:
             center = None
         if center is not None:
             # star-shapedness about the centroid is needed for the contraction argument
@@ -143,6 +146,61 @@ def constructed_pair(rng):
     return dis, base, False, "A is a component of B"
 
 
+def touching_pair(rng):
+    """polygon B with some vertices exactly on edges of polygon A (rational points), the others
+    pushed inside or outside: contact configurations decided exactly by the oracle"""
+    num = rng.choice(["frac", "frac", "int"])
+    base, _ = G.random_polygon(rng, num, (0, 0), 10.0 if num != "int" else 40.0, family=rng.choice(["rectilinear", "star", "star", "convex"]))
+    verts = [(G.exact(x), G.exact(y)) for x, y in base["v"]]
+    n = len(verts)
+    cx = sum(v[0] for v in verts) / n
+    cy = sum(v[1] for v in verts) / n
+    k = rng.randint(3, min(6, n + 2))
+    picks = sorted(rng.sample(range(n), min(k, n)))
+    bverts = []
+    for i in picks:
+        a, b = verts[i], verts[(i + 1) % n]
+        t = Fr(rng.randint(1, 7), 8)
+        p = (a[0] + t * (b[0] - a[0]), a[1] + t * (b[1] - a[1]))
+        mode = rng.choice(["on", "on", "in", "out", "vertex"])
+        if mode == "vertex":
+            p = a
+        elif mode == "in":
+            p = (p[0] + (cx - p[0]) * Fr(1, 4), p[1] + (cy - p[1]) * Fr(1, 4))
+        elif mode == "out":
+            p = (p[0] - (cx - p[0]) * Fr(1, 4), p[1] - (cy - p[1]) * Fr(1, 4))
+        if num == "int" and (p[0].denominator != 1 or p[1].denominator != 1):
+            p = (p[0] * 8, p[1] * 8)
+        bverts.append(p)
+    if num == "int":
+        # keep integer coordinates: scale A by 8 as well
+        verts = [(v[0] * 8, v[1] * 8) for v in verts]
+        bverts = [(p[0] if p[0].denominator == 1 else p[0], p[1]) for p in bverts]
+        bverts = [(Fr(round(p[0])), Fr(round(p[1]))) if (abs(p[0]) < 50 and False) else p for p in bverts]
+        # points computed on the unscaled polygon need scaling too
+        bverts = [p if any(abs(p[0]) > 60 or abs(p[1]) > 60 for _ in [0]) else p for p in bverts]
+        return None
+    if len(set(bverts)) < 3 or not O.polygon_is_simple(G.poly_curve(bverts)):
+        return None
+    if O.shoelace(bverts) < 0:
+        bverts.reverse()
+    return G.poly_spec(bverts, "frac"), G.poly_spec(verts, "frac")
+
+
+def tight_box_pair(rng):
+    """curved B inside a rectangle A that contains the curve but not B's control points"""
+    b, _ = G.random_blob(rng, (rng.uniform(-5, 5), rng.uniform(-5, 5)), 10.0, degree=rng.choice([2, 3]), mixed=False)
+    curve = G.spec_curves_exact(b)[0]
+    pts = O.flatten(curve, 64)
+    xs, ys = [p[0] for p in pts], [p[1] for p in pts]
+    m = 0.02 * max(max(xs) - min(xs), max(ys) - min(ys))
+    x0, x1, y0, y1 = min(xs) - m, max(xs) + m, min(ys) - m, max(ys) + m
+    a = G.poly_spec([(Fr(x0), Fr(y0)), (Fr(x1), Fr(y0)), (Fr(x1), Fr(y1)), (Fr(x0), Fr(y1))], "float")
+    cb = O.curve_bbox(curve)
+    pokes = float(cb[0]) < x0 or float(cb[2]) > x1 or float(cb[1]) < y0 or float(cb[3]) > y1
+    return b, a, pokes
+
+
 def sample_witness(rng, rb, ra, delta, n=60):
     """a point certified inside B and outside closed A, or None"""
     curves = O.region_curves(rb) + O.region_curves(ra)
@@ -169,7 +227,19 @@ def case(ctx):
     mode = rng.choice(["random", "random", "constructed", "constructed", "singleton", "curve"])
     how = mode
     expected = None
-    if mode == "constructed":
+    if mode == "constructed" and rng.random() < 0.25:
+        got = touching_pair(rng)
+        if got is None:
+            got = constructed_pair(rng)
+        else:
+            got = (got[0], got[1], None, "B has vertices exactly on edges / vertices of A")
+        sb, sa, expected, how = got
+        if expected is None:
+            mode = "touching"
+    elif mode == "constructed" and rng.random() < 0.2:
+        b, a, pokes = tight_box_pair(rng)
+        sb, sa, expected, how = b, a, True, "curved B inside a rectangle that excludes some of B's control points" if pokes else "curved B inside its inflated bounding rectangle"
+    elif mode == "constructed":
         got = constructed_pair(rng)
         if got is None or got[0] is None or got[1] is None:
             case = Case(ctx, {"mode": mode}, "rejected")
